@@ -16,8 +16,20 @@ def gen_v1(rnd):
     msgs = ["need this", "true", "false", "null", "1e3", "a: b", " x ", "#c"]
     for i in range(rnd.randint(1, 5)):
         root = rnd.choice(["alpha", "beta", "gamma"]) + str(i)
-        kind = rnd.randrange(6)
-        if kind == 0:
+        kind = rnd.randrange(8)
+        if kind == 6:
+            # a method without an `args` key (zero arguments), alone or beside a sibling with arguments
+            sub = rnd.choice(["close", "m"])
+            lines += ["[%s.%s]" % (root, sub), "method = true", ""]
+            names.append(root + "." + sub)
+            if rnd.random() < 0.4:
+                lines += ["[[%s.n.args]]" % root, 'type = "number"', ""]
+                lines += ["[%s.n]" % root, "method = true", ""] if rnd.random() < 0.5 else []
+                names.append(root + ".n")
+        elif kind == 7:
+            lines += ["[%s.f]" % root, "args = []"] + (["method = false"] if rnd.random() < 0.5 else []) + [""]
+            names.append(root + ".f")
+        elif kind == 0:
             lines += ["[%s]" % root, "any = true", ""]
             names.append(root)
         elif kind == 1:
@@ -52,13 +64,15 @@ def run(ctx):
     n = 25 if ctx["tier"] == "quick" else 300
     wd = os.path.join(core.CACHE, "work", "C17-cli")
     shutil.rmtree(wd, ignore_errors=True)
-    violations, done, distinct = [], 0, set()
+    violations, done, distinct, rejected = [], 0, set(), 0
     for i in range(n):
         d = os.path.join(wd, str(i))
         os.makedirs(os.path.join(d, "t"), exist_ok=True)
         os.makedirs(os.path.join(d, "y"), exist_ok=True)
         toml, names, base = gen_v1(rnd)
         probe = "".join("local _ = %s\n%s()\n%s(1, 2, 3)\n%s = 1\n" % (nm, nm, nm, nm) for nm in names)
+        probe += "".join("%s:%s()\n%s:%s(1)\n" % (nm.rsplit(".", 1)[0], nm.rsplit(".", 1)[1], nm.rsplit(".", 1)[0], nm.rsplit(".", 1)[1])
+                         for nm in names if "." in nm and nm.count(".") == 1)
         # the dialect is inherited from the base on both paths: syntax only that dialect has
         probe += {"lua52": "goto done\n::done::\n", "lua53": "local q7 = 7 // 2\nprint(q7)\n",
                   "luau": "local q7: number = 1\nq7 += 1\nprint(q7)\n"}.get(base, "")
@@ -69,7 +83,13 @@ def run(ctx):
             open(os.path.join(d, sub, "p.lua"), "w").write(probe)
         rc, out, err = cli.run_selene(d, ["upgrade-std", "up.toml"])
         if rc != 0 or not os.path.exists(os.path.join(d, "up.yml")):
-            # a v1 file the tool rejects is not an upgrade; skip (generator noise), but keep a count
+            # every file gen_v1 writes is valid v1 (docs/src/usage/std.md of the v1 era: any / property (+writable) / args /
+            # method / removed / [selene] base): the tool refusing to upgrade it loses the library
+            rp = os.path.join(core.VERIF, "replays", "C17-upgrade-%d-seed%d.json" % (i, ctx["seed"]))
+            core.write_json(rp, {"property": "C17", "kind": "upgrade-std-rejected", "toml": toml, "exit": rc, "stdout": out[-1500:], "stderr": err[-1500:]})
+            violations.append({"kind": "spec", "replay": rp, "found_input": True,
+                               "text": "upgrade-std refuses a valid v1 library (case %d): %s" % (i, (err or out).strip()[-200:])})
+            rejected += 1
             continue
         shutil.copy(os.path.join(d, "up.yml"), os.path.join(d, "y", "mystd.yml"))
         r1 = cli.run_selene(os.path.join(d, "t"), ["--display-style", "json2", "--num-threads", "1", "p.lua"])
@@ -85,5 +105,6 @@ def run(ctx):
     ctx["cov"]["extra_evaluations"] = done
     ctx["cov"]["extra_distinct"] = len(distinct)
     ctx["cov"]["upgrade_std_cases"] = done
+    ctx["cov"]["upgrade_std_rejected"] = rejected
     shutil.rmtree(wd, ignore_errors=True)
     return violations
